@@ -65,6 +65,8 @@ class OsModel:
     def getattr(ex, o, name):
         if name == 'path':
             return Obj('ospath', fs=o.f['fs'])
+        if name in OsModel.O_FLAGS:
+            return OsModel.O_FLAGS[name]
         return NOTHANDLED
 
     @staticmethod
@@ -90,6 +92,49 @@ class OsModel:
             raise ExcSig('FileNotFoundError', 'os.rename')
         fs.plain[dst] = fs.plain.pop(src)
         fs.op('rename', src, dst)
+
+    # low-level descriptor API (a refactor of write_head may use it): flags decide whether an existing file is truncated
+    O_FLAGS = dict(O_RDONLY=0, O_WRONLY=1, O_RDWR=2, O_CREAT=64, O_EXCL=128, O_TRUNC=512, O_APPEND=1024)
+
+    @staticmethod
+    def m_open(ex, o, path, flags, mode=0o777):
+        fs = o.f['fs']
+        if not isinstance(flags, int):
+            raise Unsupported('os.open with symbolic flags')
+        exists = path in fs.plain
+        if not exists and not flags & 64:
+            raise ExcSig('FileNotFoundError', 'os.open')
+        if exists and flags & 128 and flags & 64:
+            raise ExcSig('FileExistsError', 'os.open')
+        if not exists or flags & 512:
+            fs.plain[path] = ''
+        fs.op('create', path)
+        return Obj('fd', path=path, fs=fs, pos=0, append=bool(flags & 1024))
+
+    @staticmethod
+    def m_write(ex, o, fd, data):
+        fs = fd.f['fs']
+        old = fs.plain.get(fd.f['path'])
+        if old in ('', None) or fd.f['append'] is False and fd.f['pos'] == 0 and old in ('', None):
+            fs.plain[fd.f['path']] = data
+        else:
+            # bytes written over the beginning of (or appended to) existing content: the result is neither the old nor a clean new record
+            fs.plain[fd.f['path']] = Obj('overlay', new=data, old=old)
+        fd.f['pos'] = 1
+        fs.op('write', fd.f['path'])
+        return 1
+
+    @staticmethod
+    def m_fsync(ex, o, fd):
+        return None
+
+    @staticmethod
+    def m_close(ex, o, fd):
+        fd.f['fs'].op('close', fd.f['path'])
+
+    @staticmethod
+    def m_replace(ex, o, src, dst):
+        return OsModel.m_rename(ex, o, src, dst)
 
     @staticmethod
     def m_makedirs(ex, o, path, exist_ok=False):
